@@ -54,8 +54,13 @@ def run(ctx):
         m = models[i]
         degenerate = any((t["k"] in ("NN", "Real") and (t["lo"] == "inf" or t["hi"] == "-inf" or t["lo"] == "NaN" or t["hi"] == "NaN")) for t in m["types"])
         astronomic = S.SOLVERS[k] == "clarabel" and any(abs(float(v)) >= 1e12 for _, v in r["assign"])
-        fails.append({"kind": "solution-rejected-by-verified-checker", "solver": S.SOLVERS[k], "input": m["text"], "solution": r,
-                      "class": "degenerate-domain" if degenerate else ("clarabel-solved-with-astronomic-values-on-unbounded-model" if astronomic else "unclassified")})
+        viol, scale = S.max_violation(m, r)
+        # the tableau decides feasibility with its 1e-5 tolerance (F57); Clarabel's accuracy is relative to the scale of the model (F58)
+        tableau_tol = S.SOLVERS[k] == "slow_simplex" and 0.0 < viol <= 1.5e-5
+        clarabel_scale = S.SOLVERS[k] == "clarabel" and scale >= 1e5 and 0.0 < viol <= 1e-9 * scale
+        fails.append({"kind": "solution-rejected-by-verified-checker", "solver": S.SOLVERS[k], "input": m["text"], "solution": r, "largest_violation": viol,
+                      "class": "degenerate-domain" if degenerate else ("clarabel-solved-with-astronomic-values-on-unbounded-model" if astronomic else
+                               ("tableau-feasibility-tolerance-1e-5" if tableau_tol else ("clarabel-accuracy-relative-to-model-scale" if clarabel_scale else "unclassified")))})
     new = C.triage_failures(ctx, fails, describe)
     by_solver = collections.Counter(S.SOLVERS[k] for (_, k, _) in meta)
     samples = [{"model": models[i]["text"], "solver": S.SOLVERS[k], "solution": {"value": r["value"], "assign": r["assign"], "constraints": r["constraints"]}, "checker": "accepted" if j not in bad else "rejected"}
